@@ -89,7 +89,8 @@ GLOB_EXTREME = [("'['", '['), ("'[!'", '[!'), ("'[]'", '[]'), ("'[a'", '[a'), ("
                 ("'?'", '?'), ("''", ''), ("'/'", '/'), ("'a/'", 'a/'), ("'/abs'", '/abs'), ("'\\'", '\\'),
                 ("'[z-a]'", '[z-a]'), ("'[[]'", '[[]'), ("'**'", '**'), ("'**/*'", '**/*'), ("'a//b'", 'a//b'),
                 ("'{a,b}'", '{a,b}'), ("'é*'", 'é*'), ("'[^a]'", '[^a]'), ("'*/'", '*/'), ("'./x'", './x'),
-                ("'[\\]'", '[\\]'), ("'[!-]'", '[!-]')]
+                ("'[\\]'", '[\\]'), ("'[!-]'", '[!-]'), ("'.'", '.'), ("'./'", './'), ('""', ''), ("'a/./b'", 'a/./b'),
+                ("' '", ' ')]
 RANGE_BAD = [('1:2:3', '1:2:3'), ('a', 'a'), ('1:b', '1:b'), ('2.5', '2.5'), ('1/0', '1/0'), ('"1 2"', '1 2'),
              ('1:2.5', '1:2.5'), ('a:', 'a:'), (':b', ':b'), ('1:1/0', '1:1/0'), ('::', '::'), ('1::2', '1::2'),
              ("''", ''), ('1:()', '1:()'), ('0x:', '0x:'), ('1//0:', '1//0:'), ('1:2:', '1:2:')]
@@ -108,7 +109,13 @@ ALL_SYMBOL_NAMES = sorted(set(G.SYM.values())) + ['UNDEFINED', 'INC']
 # ---- ops --------------------------------------------------------------------------------------------------------------
 GENERIC_OPS = ['del', 'dup', 'swap', 'rep', 'ins', 'join', 'split', 'delline', 'dupline', 'swapline', 'hdr', 'hdrins',
                'quote', 'charins', 'chardel', 'wrongkind', 'badany', 'trunc', 'layout', 'moveline']
-TARGETED_OPS = ['badval', 'extreme', 'wrongref']
+TARGETED_OPS = ['badval', 'extreme', 'wrongref', 'badhdr', 'badinstr']
+# lines that begin with `[` but are no phase header (the manual: `[` NAME `]`, NAME one of the six phases)
+BAD_HEADERS = ['[nophase]', '[]', '[setup', '[ setup ]', '[setup] x', '[SETUP]', '[setup][act]', '[[setup]]', '[assert]]',
+               '[before_assert]', '[-]', '[é]', '[setup ]', '[ act]', '[before assert]', '[configuration]', '[a.b]']
+UNKNOWN_INSTRUCTIONS = ['no-such-instruction', 'fil', 'File', 'exit-cod', 'é', 'def-x', 'stdout2', '=', '-rel-act', '!',
+                        "'file'", 'file=', 'dir:', '@[S]@']
+NOT_INSTRUCTION_ELEMENTS = ('(comment)', '(description)', '(header)', '(blank)')
 N_LAYOUTS = 8
 
 
@@ -168,7 +175,7 @@ def line_of_token(toks, i):
     return 1 + sum(1 for t in toks[:i] if t[1] == 'nl')
 
 
-def apply_op(toks, owner, op, tier_chars=None, elem_names=None):
+def apply_op(toks, owner, op, tier_chars=None, elems=None):
     """-> (new tokens, info) ; info describes a targeted replacement (for the strict oracle) or is None.
     `toks` is not modified.  An op that has no eligible position is the identity."""
     name, p, q, w = op['op'], op['p'], op['q'], op['w']
@@ -182,8 +189,8 @@ def apply_op(toks, owner, op, tier_chars=None, elem_names=None):
 
     def prefer_instructions(cands):
         """targeted ops: 3 of 4 go to an instruction that is not a definition, if there is one"""
-        if owner and elem_names and q % 4 != 0:
-            pref = [i for i in cands if elem_names[owner[i]] != 'def']
+        if owner and elems and q % 4 != 0:
+            pref = [i for i in cands if elems[owner[i]]['name'] != 'def']
             return pref or cands
         return cands
 
@@ -323,6 +330,28 @@ def apply_op(toks, owner, op, tier_chars=None, elem_names=None):
                     'line': line_of_token(toks, i), 'token': new, 'old': old, 'old_name': old_name,
                     'new_name': new_name}
             toks[i] = [new, 'mut']
+    elif name == 'badhdr':
+        hs = [i for i, t in enumerate(toks) if t[1] == 'hdr']
+        i = pick(hs)
+        if i is not None:
+            new = BAD_HEADERS[w % len(BAD_HEADERS)]
+            info = {'op': name, 'kind': 'hdr', 'index': i, 'elem': owner[i] if owner else None,
+                    'line': line_of_token(toks, i), 'token': new, 'old': toks[i][0]}
+            toks[i] = [new, 'mut']
+    elif name == 'badinstr':
+        cands = []
+        if owner and elems:
+            for i in movable:
+                e = elems[owner[i]]
+                if (i == 0 or owner[i - 1] != owner[i]) and e['name'] not in NOT_INSTRUCTION_ELEMENTS \
+                        and e['ph'] != 'act':
+                    cands.append(i)
+        i = pick(cands)
+        if i is not None:
+            new = UNKNOWN_INSTRUCTIONS[w % len(UNKNOWN_INSTRUCTIONS)]
+            info = {'op': name, 'kind': 'instr', 'index': i, 'elem': owner[i], 'line': line_of_token(toks, i),
+                    'token': new, 'old': toks[i][0]}
+            toks[i] = [new, 'mut']
     elif name in ('trunc', 'layout'):
         pass  # text level, see apply_text_op
     else:
@@ -372,9 +401,9 @@ def mutate(doc, mutant, tier_chars=None):
         files.append(G.flatten(doc['inc']))
     toks = [f[0] for f in files]
     owners = [f[1] for f in files]
-    names = [[e['name'] for e in doc['elems']]]
+    names = [doc['elems']]
     if doc.get('inc') is not None:
-        names.append([e['name'] for e in doc['inc']])
+        names.append(doc['inc'])
     infos = []
     text_ops = []
     structure_kept = True
